@@ -12,7 +12,7 @@ order as the code.  Compared: the dump of the WHOLE world after the call (every 
 counters, the use list of every value and every block as a sorted set of (op, index) slots), the id of
 the returned op, and both mapper dicts.  Families: `clone` (every entry point), `edits` (op.clone()
 followed by edits of the copy: operand set, in-place attribute/property change, erase, insert), and
-`apply_to_clone` (real passes on arith/func modules; oracle only).
+`apply_to_clone` (oracle only: every listed module shape -- empty body with/without attributes and sym_name, nested, single-op bodies -- x ad-hoc passes that add an op / add a module attribute / rename / erase everything / do nothing, plus registered passes on arith/func/scf modules; the result must be a different object sharing nothing with the original, whose text and identity dump stay unchanged after the pass and after later edits of the result).
 Oracle (independent of the model; works on the before/after dumps): every pre-existing item is
 unchanged (for clone_into: the destination's old blocks are unchanged, in order, and the new blocks sit
 contiguously at the requested index); the copy is isomorphic to the source with inside references mapped
@@ -1105,54 +1105,153 @@ _PASSES = ["canonicalize", "dce", "cse", "constant-fold-interp"]
 
 
 def _ident_dump(op):
-    """canonical structure of an IR by PYTHON identity: changes iff any object is added/removed/rewired"""
+    """canonical structure of an IR by PYTHON identity: changes iff any object is added/removed/rewired,
+    or any attribute / property (module attributes and sym_name included) changes"""
     out = []
     for o in op.walk():
         out.append((id(o), o.name, tuple(id(v) for v in o._operands), tuple(id(r) for r in o.results),
                     tuple(sorted((k, str(v)) for k, v in o.attributes.items())),
                     tuple(sorted((k, str(v)) for k, v in o.properties.items())),
                     tuple(id(s) for s in o._successors), id(o.parent),
-                    tuple(tuple((id(b), tuple(id(a) for a in b.args), tuple(id(x) for x in b.ops)) for b in r.blocks)
+                    tuple((id(r), tuple((id(b), tuple(id(a) for a in b.args), tuple(id(x) for x in b.ops)) for b in r.blocks))
                           for r in o.regions),
                     tuple(tuple(sorted((id(u.operation), u.index) for u in r.uses)) for r in o.results)))
     return out
 
 
-def run_apply_to_clone(ctx: Ctx, n: int):
+def _objects(op):
+    """python identities of every operation, region and block of an IR"""
+    out = set()
+    for o in op.walk():
+        out.add(id(o))
+        for r in o.regions:
+            out.add(id(r))
+            out.update(id(b) for b in r.blocks)
+    return out
+
+
+# module shapes named in the property text and around it: (name, text, path of the module handed to
+# apply_to_clone inside the parsed top-level module: () = the top-level module itself)
+_SHAPES = [
+    ("empty", "builtin.module {}", ()),
+    ("empty+attrs", "builtin.module attributes {a = 1 : i32, b = \"x\"} {}", ()),
+    ("empty+sym_name", "builtin.module @m {}", ()),
+    ("empty+sym_name+attrs", "builtin.module @m attributes {a = 1 : i32} {}", ()),
+    ("empty nested", "builtin.module { builtin.module @inner {} }", (0,)),
+    ("empty nested+attrs", "builtin.module @outer { \"test.op\"() : () -> ()  builtin.module @inner attributes {k = unit} {} }", (1,)),
+    ("outer of empty", "builtin.module { builtin.module @inner {} }", ()),
+    ("single op", "builtin.module { \"test.op\"() : () -> () }", ()),
+    ("single constant", "builtin.module attributes {a = 2 : i64} { %c = arith.constant 1 : i32 }", ()),
+    ("single op with region", "builtin.module { \"test.op\"() ({ %c = arith.constant 1 : i32 }) : () -> () }", ()),
+    ("nested nonempty", "builtin.module { builtin.module @inner { %c = arith.constant 3 : i32  \"test.op\"(%c) : (i32) -> () } }", (0,)),
+]
+_ADHOC = ["noop", "add-op", "add-attr", "rename", "erase-all", "add-op+attr"]
+
+
+def _adhoc_pass(kind):
+    """ad-hoc ModulePass subclasses that ADD to / rename / empty the module they are given"""
+    from dataclasses import dataclass
+    from xdsl.dialects import test
+    from xdsl.dialects.builtin import StringAttr
+    from xdsl.passes import ModulePass
+    from xdsl.rewriter import Rewriter
+
+    def apply(self, ctx, op):
+        if "add-op" in kind:
+            op.body.block.add_op(test.TestOp(result_types=[]))
+        if "attr" in kind:
+            op.attributes["c02.mark"] = StringAttr("added by the pass")
+        if kind == "rename":
+            op.sym_name = StringAttr("renamed_by_the_pass")
+        if kind == "erase-all":
+            for o in reversed(list(op.body.block.ops)):
+                Rewriter.erase_op(o, safe_erase=False)
+
+    cls = type("C02Pass_" + kind.replace("-", "_").replace("+", "_"), (ModulePass,), {"name": "c02-" + kind, "apply": apply})
+    return dataclass(frozen=True)(cls)()
+
+
+def _edit_result(m2):
+    """later edits of the returned module (must be invisible in the original)"""
+    from xdsl.dialects import test
+    from xdsl.dialects.builtin import StringAttr
+    from xdsl.rewriter import Rewriter
+    m2.attributes["c02.later"] = StringAttr("later edit")
+    m2.sym_name = StringAttr("later_name")
+    for o in reversed(list(m2.body.block.ops)):
+        Rewriter.erase_op(o, safe_erase=False)
+    m2.body.block.add_op(test.TestOp(result_types=[]))
+
+
+def apply_to_clone_case(text, path, the_pass):
+    """-> (ok, why, changed): run the_pass.apply_to_clone on the module at `path`, judge the statement"""
     from xdsl.context import Context
     from xdsl.dialects import arith, builtin, func, scf, test
     from xdsl.parser import Parser
+    c = Context()
+    for d in (arith.Arith, builtin.Builtin, func.Func, scf.Scf, test.Test):
+        c.load_dialect(d)
+    top = Parser(c, text).parse_module()
+    m = top
+    for i in path:
+        m = list(m.body.block.ops)[i]
+    before_txt, before_ids = str(top), _ident_dump(top)
+    try:
+        _, m2 = the_pass.apply_to_clone(c, m)
+    except Exception:       # noqa: BLE001 -- a pass that aborts is C17's business; the original must still be intact
+        m2 = None
+    if str(top) != before_txt or _ident_dump(top) != before_ids:
+        return False, "the original module changed when the pass ran on its clone", False
+    if m2 is None:
+        return True, "", False
+    if m2 is m:
+        return False, "apply_to_clone returned the ORIGINAL module object, not a copy", False
+    if _objects(m2) & _objects(top):
+        return False, "the returned module shares operations / regions / blocks with the original", False
+    changed = str(m2) != str(m)
+    try:
+        _edit_result(m2)
+    except Exception as e:       # noqa: BLE001
+        return False, f"editing the returned module raised {type(e).__name__}", changed
+    if str(top) != before_txt or _ident_dump(top) != before_ids:
+        return False, "a later edit of the returned module is visible in the original", changed
+    return True, "", changed
+
+
+def run_apply_to_clone(ctx: Ctx, n: int):
+    """oracle-only family: (a) every module shape x every ad-hoc pass (complete sweep of the listed shapes),
+    (b) n random (arith/func/scf module, registered pass) pairs"""
     from xdsl.transforms import get_all_passes
     passes = get_all_passes()
-    fails, changed, total = [], 0, 0
+    fails, changed, total, adhoc = [], 0, 0, 0
+    jobs = [(nm, text, path, kind) for nm, text, path in _SHAPES for kind in _ADHOC]
+    for k, text in enumerate(_MODULES):          # the larger modules once with an adding and an emptying pass
+        jobs += [(f"module {k}", text.replace("K1", "5").replace("K2", "1"), (), kind) for kind in ("add-op+attr", "erase-all")]
     for _ in range(n):
         k = ctx.rng.randrange(len(_MODULES))
         text = _MODULES[k].replace("K1", str(ctx.rng.choice([0, 1, 2, 7]))).replace("K2", str(ctx.rng.choice([0, 1, 3])))
-        pname = ctx.rng.choice(_PASSES)
-        c = Context()
-        for d in (arith.Arith, builtin.Builtin, func.Func, scf.Scf, test.Test):
-            c.load_dialect(d)
-        m = Parser(c, text).parse_module()
-        before_txt, before_ids = str(m), _ident_dump(m)
-        try:
-            _, m2 = passes[pname]()().apply_to_clone(c, m)
-        except Exception as e:       # noqa: BLE001 -- a pass that aborts is C17's business; the original must still be intact
-            m2 = None
+        jobs.append((f"module {k}", text, (), "pass:" + ctx.rng.choice(_PASSES)))
+    for nm, text, path in _SHAPES[:7]:            # registered passes on the empty shapes as well
+        jobs.append((nm, text, path, "pass:" + ctx.rng.choice(_PASSES)))
+    for nm, text, path, kind in jobs:
+        the_pass = passes[kind[5:]]()() if kind.startswith("pass:") else _adhoc_pass(kind)
+        ok, why, ch = apply_to_clone_case(text, path, the_pass)
         total += 1
-        ok = str(m) == before_txt and _ident_dump(m) == before_ids
-        if m2 is not None:
-            ok = ok and m2 is not m and not ({id(o) for o in m2.walk()} & {id(o) for o in m.walk()})
-            if str(m2) != before_txt:
-                changed += 1
+        adhoc += not kind.startswith("pass:")
+        changed += ch
         if not ok:
-            fails.append({"module": k, "text": text, "pass": pname})
-        ctx.nontrivial.add(("apply_to_clone", k, pname, text))
+            fails.append({"shape": nm, "text": text, "path": list(path), "pass": kind, "oracle": why})
+        ctx.nontrivial.add(("apply_to_clone", nm, kind, text))
     ctx.evaluations += total
     ctx.coverage.setdefault("families", {})["apply_to_clone"] = {
-        "cases": total, "oracle_failures": len(fails), "clones_changed_by_the_pass": changed,
-        "passes": _PASSES, "model": "none (oracle only; the model-level statement is C02_apply_to_clone)"}
+        "cases": total, "adhoc_pass_cases": adhoc, "oracle_failures": len(fails), "clones_changed_by_the_pass": changed,
+        "shapes": [nm for nm, _, _ in _SHAPES], "adhoc_passes": _ADHOC, "passes": _PASSES,
+        "oracle": "result is a different object sharing no op/region/block with the original; original's text and identity dump "
+                  "(attributes, properties incl. sym_name, structure, uses) unchanged after the pass AND after later edits of the result",
+        "model": "none (oracle only; the model-level statement is C02_apply_to_clone)"}
     if fails:
-        ctx.violation({"family": "apply_to_clone", "case": fails[0], "oracle": "the original module changed",
+        fails.sort(key=lambda f: len(f["text"]))
+        ctx.violation({"family": "apply_to_clone", "case": fails[0], "oracle": fails[0]["oracle"],
                        "other_failing_cases": len(fails) - 1})
 
 
